@@ -34,7 +34,7 @@ REQUIRED = ["Sqfs.C19." + t for t in (
     "copy_equiv_idTable", "copy_equiv_fragTable", "copy_fail_restores", "ops_release_safe", "copy_independent_mixed",
     "copy_equiv_dataReader", "copy_equiv_metaReader", "table_fill_is_adds", "envHeap_balanced",
     "rbtree_copy_equiv", "rbtree_built_wellformed", "copy_equiv_dirCache", "array_copy_equiv", "strtable_copy_equiv",
-    "rbtree_pool_copy_independent", "copy_equiv_dataReaderX", "copy_independent_interleaved_partial", "copy_equiv_deep")]
+    "rbtree_pool_copy_independent", "copy_equiv_dataReaderX", "copy_independent_interleaved", "copy_independent_projection", "copy_equiv_deep")]
 COMPS = ["gzip", "xz", "lzma", "lz4", "zstd"]
 ENV_KINDS = ("meta", "dir", "data", "xattr")
 WRAP = "-Wl,--wrap=malloc,--wrap=calloc,--wrap=realloc,--wrap=dup,--wrap=deflateInit2_,--wrap=inflateInit_,--wrap=ZSTD_createCCtx,--wrap=mmap"
